@@ -17,12 +17,13 @@ E = enums
 T = rig.T
 A = E.AttributeType
 M = E.CryptographicUsageMask
-CLIENTS = [(('alice', None), (1, 2)), (('bob', ['g1']), (1, 4)), (('carol', None), (2, 0)), (('dave', ['g1', 'g2']), (1, 0))]
+CLIENTS = [(('alice', None), (1, 2)), (('bob', ['g1']), (1, 4)), (('carol', None), (2, 0)), (('dave', ['g1', 'g2']), (1, 0)),
+           (('erin', None), (2, 0)), (('frank', ['g1']), (2, 0))]
 
 
 def plan(tier):
     return {
-        'level': 'exploration', 'shards': 16, 'budget_s': 90 if tier == 'quick' else 900,
+        'level': 'exploration', 'shards': 16, 'budget_s': 150 if tier == 'quick' else 1200,
         'rule': 'short histories of 2-4 real KmipSession threads (different users, groups and KMIP versions) on one '
                 'engine, 3-7 requests each over a few shared objects (creates, identifier-less batch items, attribute '
                 'changes, Activate/Revoke/Destroy of each other\'s objects, reads, Locate), with thread yields injected at '
@@ -158,6 +159,22 @@ def client_requests(rng, ci, ident, version, shared, hist, hot=False):
         except Exception:
             continue
         reqs.append(data)
+        if version >= (2, 0) and rng.random() < 0.3:
+            # a KMIP 2.0 request carrying an attribute that KMIP 2.0 no longer has (Operation Policy Name, written the
+            # way a client would): the session's decoder refuses it - whatever other sessions are decoding meanwhile
+            try:
+                tree = T.decode(rig.encode_request(rig.build_request(version, [op_create(names=[name + '-x'])]), version), strict=False)
+                for p_, it in T.walk(tree):
+                    if it[0] == 0x420125 and it[1] == T.STRUCTURE:
+                        tree = T.replace_at(tree, p_, (it[0], it[1], list(it[2]) + [(0x42005D, T.TEXT, 'open')]))
+                        break
+                bad = T.encode(tree)
+                try:
+                    rig.decode_request(bad)
+                except Exception:
+                    reqs.append(bad)
+            except Exception:
+                pass
         if rng.random() < 0.12:
             # an undecodable frame: answered by the session itself (error response built outside the engine lock)
             junk = bytes(rng.getrandbits(8) for _ in range(16))
@@ -303,8 +320,9 @@ def run_case(ctx, case):
         prob = rng.choice((0.02, 0.05, 0.15))
         mon = sys.monitoring
         tool = 4
-        watched = ('/kmip/services/server/engine.py', '/kmip/services/server/session.py', '/kmip/pie/',
-                   '/kmip/services/server/policy.py', '/kmip/services/server/auth/')
+        # the whole package: requests are decoded and responses encoded by the session threads outside the engine lock,
+        # so module-level state of the codec (kmip/core) is shared between them as well
+        watched = ('/kmip/',)
         try:
             mon.use_tool_id(tool, 'kv-c10')
         except ValueError:
